@@ -194,6 +194,10 @@ def boundary_msgs(rng, coder):
                 out.append(tcp_len_class(m, target, rng))
     for tl in range(9):
         out.append(dict(base, tok=rbytes(rng, tl), opts=[(11, b"a")], pay=b"x"))
+    # option counts around powers of two (capacity steps of the pooled retry): repeated empty If-Match / unknown 2000
+    for n in (1023, 1024, 1025, 2049):
+        out.append(dict(base, opts=[(1, b"")] * n))
+        out.append(dict(base, opts=[(1, b"")] * (n // 2) + [(2000, b"")] * (n - n // 2), pay=b"q"))
     return out
 
 
